@@ -47,12 +47,19 @@ def thread_module_hook(b):
         t = Opaque('Thread', attrs={'target': k.get('target')})
         def start(I2, o, a2, k2):
             tgt = o.attrs['target']
-            I2.ghost['started'].items.append(getattr(tgt, 'self', tgt))
+            ag = getattr(tgt, 'self', tgt)
+            I2.ghost['started'].items.append(ag)
+            # at the instant its thread starts the job must already be what the controller reports as running
+            jc = I2.ghost.get('jc')
+            if jc is not None:
+                known = jc.attrs.get('_active_agent') is ag or any(v is ag for v in I2.read_dict(jc.attrs['_background']).values())
+                I2.ghost['registered_at_start'].items.append(known)
         t.methods['start'] = start
         t.methods['is_alive'] = lambda I2, o, a2, k2: I2.fresh('bool', 'alive')
         return t
     th.ns['Thread'] = Builtin('Thread', thread_ctor)
     b.ghost('started', PyList())
+    b.ghost('registered_at_start', PyList())
     b.pre_exec = [THREAD_FAKE]
 
 
@@ -110,6 +117,7 @@ def _finish_jc(b, jc, q, active, nbg, may_fail):
             if isinstance(names[i], SymVal):
                 b.assume(names[i].t != names[j].t)
     jc.attrs.update(_background=bg, _active_agent=act, _queue=q, _lock=lock_stub(b, may_fail))
+    b.ghost('jc', jc)
     b.ghost('stop_requests', PyList())
     return jc, q, act
 
@@ -189,6 +197,7 @@ c.ensures('starts-the-front-job-when-idle',
 c.ensures('otherwise-nothing-starts',
           "timed_out() or old(self._active_agent) is not None or len(old(self._queue)) == 0 ==> "
           "self._active_agent is old(self._active_agent) and same_agents(self._queue, old(self._queue)) and len(ghost('started')) == 0")
+c.ensures('holds-the-slot-before-its-thread-starts', "all(ghost('registered_at_start'))")
 
 # ---- add_job / insert_job
 for meth, front in (('add_job', False), ('insert_job', True)):
@@ -209,6 +218,7 @@ for meth, front in (('add_job', False), ('insert_job', True)):
               "not is_none(result) and old(self._active_agent) is None ==> self._active_agent is (%s)[0] "
               "and same_agents(self._queue, tail(%s)) and same_agents(ghost('started'), seq(self._active_agent))" % (new_q, new_q))
     c.ensures('agent-reports-back-to-the-controller', "not is_none(result) ==> result._job is job and result._callback.__func__ is self._on_execution_done.__func__")
+    c.ensures('holds-the-slot-before-its-thread-starts', "all(ghost('registered_at_start'))")
 
 # ---- completion: frees the slot and starts the next one
 c = contract(JC, 'JobControl._on_execution_done', serves=['C08'])
@@ -223,14 +233,14 @@ c.ensures('next-in-queue-order-starts', "not timed_out() and len(old(self._queue
 c.ensures('drained', "not timed_out() and len(old(self._queue)) == 0 ==> self._active_agent is None and len(ghost('started')) == 0 and self.has_jobs() == (len(self._background) > 0)")
 
 # ---- the agent: the callback is invoked exactly once, also when the job raises
-for raises in (False, True):
-    c = contract(JC, 'Agent._execute_and_call', serves=['C08'], name='Agent._execute_and_call[job %s]' % ('raises' if raises else 'finishes'))
+for raises in (False, 'RuntimeError', 'SystemExit', 'KeyboardInterrupt'):
+    c = contract(JC, 'Agent._execute_and_call', serves=['C08'], name='Agent._execute_and_call[job %s]' % (('raises ' + raises) if raises else 'finishes'))
     def _setup(b, case, raises=raises):
         calls = PyList()
         def execute(I_, o, a, k):
             I_.ghost['executed'] = I_.ghost.get('executed', 0) + 1
             if raises:
-                I_.raise_builtin('RuntimeError', 'job failed')
+                I_.raise_builtin(raises, 'job failed')
         job = Opaque('job', methods={'execute': execute})
         cb = Builtin('callback', lambda I_, a, k: calls.items.append(a[0]))
         ag = PyObj(b.cls('bardolph.lib.job_control', 'Agent'), {'_job': job, '_callback': cb, '_thread': None, '_name': 'n'})
@@ -238,11 +248,11 @@ for raises in (False, True):
         return {'self': ag, '_calls': calls}
     c.setup(_setup)
     post = "ghost('executed') == 1 and len(_calls) == 1 and _calls[0] is self"
+    # whether the job's exception propagates or is absorbed is not the property's business: the completion callback
+    # must have been invoked exactly once on every way out (else the queue never advances)
     if raises:
-        c.raises('RuntimeError', ('callback-still-invoked-once', post))
-        c.ensures('unreachable', 'False')
-    else:
-        c.ensures('executed-then-callback-once', post)
+        c.raises(raises, ('callback-still-invoked-once', post))
+    c.ensures('executed-then-callback-once', post)
 
 # ---- background jobs
 c = contract(JC, 'JobControl.spawn_job', serves=['C08'])
@@ -261,6 +271,7 @@ c.ensures('lock-balanced', 'lock_released(self)')
 c.ensures('runs-alongside-under-its-name', "not is_none(result) ==> maps_to(self._background, name, result) and len(self._background) == len(old(self._background)) + 1 "
           "and same_agents(ghost('started'), seq(result)) and self._active_agent is old(self._active_agent) and same_agents(self._queue, old(self._queue))")
 c.ensures('timeout-changes-nothing', "is_none(result) ==> len(self._background) == len(old(self._background)) and len(ghost('started')) == 0")
+c.ensures('reported-as-running-from-the-moment-it-starts', "all(ghost('registered_at_start'))")
 
 c = contract(JC, 'JobControl._on_background_done', serves=['C08'])
 def _setup(b, case):
